@@ -455,6 +455,9 @@ def copy_item(out, sf, kind, name, mode, meta):
 def generate(unit, repo, probe=False):
     """Returns (text, tags, meta)."""
     meta = {'unit': unit.name, 'repo': repo, 'rewrites': [], 'functions': [], 'clauses': {}, 'items': [], 'probes': [], 'lemmas': [], 'dropped_loop_contracts': []}
+    for (f, txt) in unit.expects:
+        if txt not in SrcFile.get(os.path.join(repo, 'src', f)).src:
+            raise GenError('expected text no longer in %s: %r' % (f, txt))
     out = Out()
     for l in unit.crate_attrs:
         out.add(l, {'kind': 'prelude'})
